@@ -370,6 +370,8 @@ func genC18(e *emitter, tier string) {
 		}()
 		e.line(fmt.Sprintf("(c18.view %s %s %s %s %s %s)", tS, vS, smd, jS, eq, cmp))
 	}
+	// Set / Delete through the Map interface
+	genC18Mut(e, n/2)
 	// JSON and YAML round trips of generic values
 	vals := valueUniverse()
 	for i := 0; i < 200; i++ {
